@@ -545,6 +545,9 @@ def run(prog, rep, tier):
     from .c07 import check_leg_side_direction
     rep.rule('LEG-side-direction', 'see C07')
     check_leg_side_direction(prog, rep)
+    rep.rule('OFFSET-once', 'an index offset handed on to a helper is not added again to its results')
+    if check_offset_once(prog, rep) < 1:
+        raise AnalysisError('OFFSET-once: functions forwarding an index offset not found')
     rep.floor('MPS-coupled-order', 8)
     rep.floor('MPS-form-flow', 4)
     rep.assumptions += ['that the transformed state equals the dense image is NOT decided']
@@ -664,4 +667,51 @@ def check_permute_direction(prog, rep):
                               'companion list disagree unless the permutation is an involution; '
                               'pass inverse_permutation(%s)' %
                               (unparse(gathers[0])[:60], A, A, unparse(c)[:50], A, A), c.lineno)
+    return n
+
+
+# ------------------------------------------------------------------ OFFSET-once
+def check_offset_once(prog, rep):
+    """OFFSET-once: a function that hands its index offset on to a helper (`_term_to_ops_list(..,
+    i_offset, ..)`) gets results that already include the offset; adding the offset again to a
+    value that comes out of that call counts it twice (sites beyond the term get the
+    Jordan-Wigner string, or the index leaves the chain)."""
+    m = prog.module(MPS)
+    n = 0
+    for q, f in m.functions.items():
+        pm = params(f)
+        offs = [p for p in pm if p.endswith('offset')]
+        if not offs:
+            continue
+        off = offs[0]
+        derived = set()
+        for st in stmts_of(f):
+            if isinstance(st, ast.Assign) and isinstance(st.value, ast.Call) and any(
+                    isinstance(a, ast.Name) and a.id == off
+                    for a in list(st.value.args) + [k.value for k in st.value.keywords]):
+                for t in st.targets:
+                    derived |= {x.id for x in ast.walk(t) if isinstance(x, ast.Name)}
+        if not derived:
+            continue
+        # one level of propagation through plain arithmetic on derived names
+        changed = True
+        while changed:
+            changed = False
+            for st in stmts_of(f):
+                if isinstance(st, ast.Assign) and len(st.targets) == 1 and isinstance(
+                        st.targets[0], ast.Name) and st.targets[0].id not in derived and \
+                        isinstance(st.value, (ast.BinOp, ast.Name)) and \
+                        names_in(st.value) & derived:
+                    derived.add(st.targets[0].id)
+                    changed = True
+        n += 1
+        hits = [b for b in body_nodes(f) if isinstance(b, ast.BinOp) and isinstance(
+            b.op, (ast.Add, ast.Sub)) and off in names_in(b) and names_in(b) & derived]
+        rep.instance('OFFSET-once', {'function': q, 'offset': off, 'includes_offset': sorted(derived),
+                                     'offset_added_again': [unparse(b) for b in hits]})
+        for b in hits:
+            rep.violation('OFFSET-once', m, q, 'offset-twice:' + unparse(b)[:40],
+                          '`%s`: %s comes out of a call that was given `%s` and already includes '
+                          'it; the offset is applied a second time' %
+                          (unparse(b), sorted(names_in(b) & derived), off), b.lineno)
     return n
